@@ -71,6 +71,11 @@ CLAIMED = {
         "note": "Trusted: z3, symx, SymRotation, unit-circle angle algebra. Bounds: box shapes from {1..4}^3 (8 quick) / {1..5}^3 (125 thorough), 6 / 30 exact rational orientations. Assumption A-C08: sign convention of a positive tilt angle as used by all three implementations. Symmetry is not required on the Nyquist plane of even axes (the geometric rule itself is asymmetric there).",
         "ref": "DESIGN.md §4 C08",
     },
+    "C09": {
+        "text": "average/average_split/LoaderGroup.average(_split) executed on a loader whose i-th subtomogram is a one-voxel symbolic image, dask.array replaced by a stack/mean/compute stub and the random generator by a stub with symbolic picks: the explorer covers every possible split; z3 proves average = arithmetic mean, the two halves are the means of a partition into two non-empty sets (N>=2), their count-weighted mean is the full average, same seed => same split, n_set draws successive picks from one stream, group averages use each group's own molecules.",
+        "note": "Trusted: z3, symx, DaskArrayStub (numpy meaning of stack/mean/compute), RngStub (choice returns elements of its argument, repetition allowed; stream determined by the seed), real polars. Bounds: N<=5 (average), N in 2..4/2..6 (splits), n_set<=2. NOT covered (stated): 'however the tomogram is chunked' - dask's chunked reductions are environment; BatchLoader.average shares LoaderBase.average (task order is C03).",
+        "ref": "DESIGN.md §4 C09",
+    },
     "C10": {
         "text": "(i) lazily declared shapes: the shape construct_landscape declares (real code on stand-ins) is proved equal to the shape the real model.landscape() returns for ZNCC/NCC/PCC/FSC with and without up-sampling, max_shifts symbolic on one axis of a 6^3 box; loading tasks declare the requested box. "
                 "(ii) thread interleavings of the shared TemplateMaskCache: get() is translated from CPython bytecode to shared-dict steps and all schedules of 2 and 3 threads (switch between any two bytecodes) are bounded-model-checked by z3 (QF_BV): no thread raises, every thread gets the stored value; counterexample schedules are replayed with an opcode-level deterministic scheduler.",
